@@ -208,6 +208,8 @@ def _implied(fn, cond, truth, term_bb, out, depth=0):
                     for (g, t) in branch_conditions(fn, comp[0], depth + 1):
                         out.append((g, t))
                     return
+    if _flag_test(fn, cond, truth, out, depth):
+        return
     if i is not None and i.op == "phi" and i["ty"] == "i1":
         want = 1 if truth else 0
         alive = []
@@ -226,6 +228,52 @@ def _implied(fn, cond, truth, term_bb, out, depth=0):
                 out.append((g, t))
 
 
+def _flag_alloca(fn, o):
+    """operand that (through casts) loads a local scalar whose address is never handed out and that is only ever assigned constants -> (alloca, stores)"""
+    j = fn.resolve(strip_casts(fn, o))
+    if j is None or j.op != "load" or j["ptr"].get("k") != "inst":
+        return None, None
+    a = fn.insts[j["ptr"]["id"]]
+    if a.op != "alloca" or a.get("param") or _escapes(fn, a):
+        return None, None
+    sts = [x for x in fn.all_insts() if x.op == "store" and x["ptr"].get("k") == "inst" and x["ptr"]["id"] == a.id]
+    if not sts or any(const_of(fn, x["val"]) is None for x in sts):
+        return None, None
+    return a, sts
+
+
+def _flag_holds(fn, o, accept, out, depth):
+    """a verdict variable (`verdict = DEFERRED; if (a) { if (b) verdict = ADMITTED; }  switch (verdict)`): the variable having an accepted value means
+    the one assignment of such a value ran last, so the guards of that assignment hold (as they would for the statement nested in those ifs)"""
+    a, sts = _flag_alloca(fn, o)
+    if a is None:
+        return False
+    ok = [x for x in sts if accept(const_of(fn, x["val"]))]
+    if len(ok) != 1 or len(sts) < 2:
+        return False
+    for (g, t) in branch_conditions(fn, ok[0], depth + 1):
+        out.append((g, t))
+    return True
+
+
+def _flag_test(fn, cond, truth, out, depth):
+    """cond is `flag`, `!flag`, `flag == K` or `flag != K` over a constant-assigned local"""
+    i = fn.resolve(strip_casts(fn, cond))
+    if i is None:
+        return False
+    if i.op == "load":
+        want = 1 if truth else 0
+        return _flag_holds(fn, cond, lambda c: (c & 1) == want, out, depth)
+    if i.op == "icmp" and i["pred"] in ("eq", "ne"):
+        for x, y in ((i["a"], i["b"]), (i["b"], i["a"])):
+            k = const_of(fn, y)
+            if k is not None:
+                eq = (i["pred"] == "eq") == truth
+                bits = fn.resolve(strip_casts(fn, x))
+                return _flag_holds(fn, x, (lambda c: c == k) if eq else (lambda c: c != k), out, depth)
+    return False
+
+
 def branch_conditions(fn, inst, depth=0):
     """list of (guard, truth) pairs known to hold whenever inst executes: conditions of branch edges that dominate inst,
     plus what they imply through short-circuit (&&, ||) phis.  guard["cond"] is the condition operand."""
@@ -238,6 +286,15 @@ def branch_conditions(fn, inst, depth=0):
             for s in (t["t"], t["f"]):
                 if edge_dominates(fn, b.id, s, inst):
                     _implied(fn, t["cond"], s == t["t"], b.id, out, depth)
+        elif t.op == "switch":
+            for s in dict.fromkeys([l for _, l in t["cases"]] + [t["default"]]):
+                if edge_dominates(fn, b.id, s, inst):
+                    vals = {v for v, l in t["cases"] if l == s}
+                    if s == t["default"]:
+                        others = {v for v, l in t["cases"] if l != s}
+                        _flag_holds(fn, t["cond"], lambda c: c not in others, out, depth)
+                    else:
+                        _flag_holds(fn, t["cond"], lambda c: c in vals, out, depth)
     return out
 
 
